@@ -8,6 +8,7 @@ import FFSM2.Lemmas.SilentGen
 import FFSM2.Lemmas.NoPlan
 import FFSM2.Lemmas.PrevInv
 import FFSM2.Props.C11
+import FFSM2.Lemmas.ProvWorld
 /-!
 # Run-level theorems: the per-call theorems lifted to every history
 
@@ -1175,6 +1176,41 @@ theorem C11_history_replica_sync (cfg : Cfg) (hwf : cfg.WF) (hh : cfg.history = 
     rw [onCore_fst, World.get_put_same]
     show (replayTransition ⟨cfg, beh, r, k⟩ ca.prev.dest { core := cr }).1.core.active = ca.active
     rw [(C11_replay_spec _ _ hne _).1, hdest]
+
+/-! ### C07: provenance of every transition and task shown to user code -/
+
+/-- **C07 over whole histories — payloads (and origins, destinations) travel intact.**  Let `M` be the set of
+    transitions requested anywhere in the history: by `changeTo` / `changeWith` / `immediateChange…` /
+    `replayTransition` / `replayEnter` calls (origin "none"), by `changeTo` / `changeWith` inside callbacks
+    (origin: the calling state), and the tasks appended to a plan (which become requests when they fire).
+    Then in every callback of every history, everything the control object shows — the outstanding request,
+    the pending transition a guard is asked about, the current transition a lifecycle callback runs under, every
+    task of the plan — is, field for field (origin, destination, payload or its absence), an element of `M`; and
+    so is every instance's outstanding request, previous transition and plan when the history ends.  No payload
+    is ever shown with a request it was not attached to, a payload-free request never shows one. -/
+theorem C07_history_provenance (cfg : Cfg) (beh : Beh) (ops : List Op) (hnr : ∀ op ∈ ops, op.isReplayFrom = false) :
+    ObsAll (MadeBy ops (run cfg beh ops).2) (run cfg beh ops).2 ∧
+    WProv (MadeBy ops (run cfg beh ops).2) (run cfg beh ops).1 := by
+  have h := runFrom_prov (M := MadeBy ops (run cfg beh ops).2) cfg beh ops [] 0
+    (fun i c hc => by simp [World.get] at hc)
+    (fun op hop t ht => Or.inl ⟨op, hop, ht⟩) hnr
+    (fun e he t ht => Or.inr ⟨e, he, ht⟩)
+  exact ⟨h.2, h.1⟩
+
+/-- spelled out for one observation: a guard's pending transition with a payload `p` was requested with
+    exactly that payload, for that destination, by that origin -/
+theorem C07_history_pending_payload (cfg : Cfg) (beh : Beh) (ops : List Op) (hnr : ∀ op ∈ ops, op.isReplayFrom = false)
+    (k : Key) (vis : Bool) (o : Obs) (he : Ev.cb k vis o ∈ (run cfg beh ops).2) (t : Tr) (hp : o.pending = some t) (hv : t.valid = true) :
+    (∃ op ∈ ops, t ∈ op.ext) ∨ (∃ e ∈ (run cfg beh ops).2, e.made = some t) :=
+  ((C07_history_provenance cfg beh ops hnr).1 _ he k vis o rfl).2.2.1 t hp hv
+
+/-- non-vacuity: a payload-carrying request followed by a payload-free one; what the guards see -/
+example :
+    let cfg : Cfg := { n := 3, L := 2, cap := 1, hasPayload := true }
+    let beh : Beh := fun k => if k.method = .update ∧ k.sid = 0 then [.changeWith 1 42, .changeTo 2] else []
+    let r := run cfg beh [.construct 0 false, .update 0]
+    (r.2.filterMap fun e => match e with | .cb k _ o => if k.method = .exitGuard then o.pending else none | _ => none)
+      = [⟨0, 2, none⟩] := by decide
 
 /-- non-vacuity: two instances interleaved, a copy, a vetoed request; instance 0's path is paired and the
     hypotheses of `C01_history` hold for it -/
